@@ -14,7 +14,10 @@
 (* and a feasibility flag.  The invariant: whenever no call is in progress and the model exists,    *)
 (* every constrained variable is feasible - the premise of Compose's end-to-end theorem.           *)
 (* Coupled == pairs <<v, w>> where the constraint of v reads the current value of w (KFL kernel     *)
-(* reads sign(scale)): v is feasible only relative to the w it was constrained against.            *)
+(* reads sign(scale)): v is feasible only relative to the w it was constrained against.  A         *)
+(* Constrain step keeps the token: what the partner reads of a value (its sign) is not changed by  *)
+(* that value's own constraint (clip towards 0) - KflLayer.tla checks this coupling with exact      *)
+(* values under every interleaving.                                                                  *)
 EXTENDS Integers, Sequences, FiniteSets, TLC
 CONSTANTS Vars, HasConstraint, Coupled, MaxSteps
 VARIABLES feas, tok, against, pending, pc, saved, alive, fresh, steps, hist
